@@ -240,10 +240,10 @@ pub mod publisher {
 //@ # C08 / C09: ... the topic was handed every message of the request, in request order, with exactly its data and
 //@ # attributes, and the response carries the text of the ids the topic answered with, in that order
 //@ ensures[C09] (match r { Ok(resp) => exists|t: Topic, ms: Seq<TopicMessage>, ids: Seq<MessageId>| #[trigger] accepted(t, ms, ids) && ms.len() == request.m.messages@.len() && ids.len() == ms.len() && (forall|i: int| #![trigger ms[i]] 0 <= i < ms.len() ==> carries(ms[i], request.m.messages@[i])) && (forall|i: int| #![trigger ids[i]] 0 <= i < ids.len() ==> resp.m.message_ids@[i]@ == display_u64(ids[i].value)), Err(_) => true })
-//@ closure 1 ret st: Status
-//@ closure 1 ensures (match $1 { PublishMessagesError::TopicDoesNotExist => st.code == Code::NotFound, PublishMessagesError::Closed => st.code == Code::FailedPrecondition })
-//@ closure 2 ret s: String
-//@ closure 2 ensures s@ == display_u64($1.value)
+//@ closure /PublishMessagesError::TopicDoesNotExist/ ret st: Status
+//@ closure /PublishMessagesError::TopicDoesNotExist/ ensures (match $1 { PublishMessagesError::TopicDoesNotExist => st.code == Code::NotFound, PublishMessagesError::Closed => st.code == Code::FailedPrecondition })
+//@ closure /\.to_string\(\)/ ret s: String
+//@ closure /\.to_string\(\)/ ensures s@ == display_u64($1.value)
 //@end
     }
 }
